@@ -174,6 +174,7 @@ private:
 static void notifier(std::string const& s)
 {
   unsigned long n = 0;
+  if (s.find("Allocated a new SPSC queue") != std::string::npos) return; // unbounded queue grew: not an observation
   if (s.find("Dropped") != std::string::npos) { sscanf(s.c_str() + s.find("Dropped"), "Dropped %lu", &n); obs({3, 1, n}); }
   else if (s.find("blocking occurrences") != std::string::npos) { sscanf(s.c_str() + s.find("Experienced"), "Experienced %lu", &n); obs({3, 2, n}); }
   else if (s.find("Could not format") != std::string::npos) obs({3, 3, 0});
@@ -239,11 +240,19 @@ static LoggerHandle make_logger(std::string const& name, std::vector<std::shared
   return h;
 }
 
-static LoggerHandle make_logger_rt(bool dropping, u64 capk, std::string const& name,
+// kind: 0 BoundedBlocking, 1 BoundedDropping, 2 UnboundedBlocking (initial capacity 2^capk, never reaches its maximum)
+static LoggerHandle make_logger_rt(u64 kind, u64 capk, std::string const& name,
                                    std::vector<std::shared_ptr<quill::Sink>> sinks)
 {
   using quill::QueueType;
 #define MK(QT, K) return make_logger<FO<QT, (size_t{1} << K)>>(name, std::move(sinks))
+  if (kind == 2)
+  {
+    if (capk == 8) MK(QueueType::UnboundedBlocking, 8);
+    if (capk == 10) MK(QueueType::UnboundedBlocking, 10);
+    MK(QueueType::UnboundedBlocking, 12);
+  }
+  bool const dropping = (kind == 1);
   if (!dropping)
   {
     if (capk == 8) MK(QueueType::BoundedBlocking, 8);
@@ -481,7 +490,7 @@ static void run_case(std::vector<u64> const& l)
 {
   ++g_case;
   size_t i = 0;
-  bool dropping = l[i++] != 0;
+  u64 dropping = l[i++];
   u64 capk = l[i++];
   i += 3; // batch, on_batch, on_drain: facts of the source, not inputs of the implementation
   u64 tinit = l[i++], soft = l[i++], hard = l[i++], grace = l[i++];
